@@ -49,6 +49,10 @@ RetConnectFull(h) == IF sk[h].closed THEN ClosedRule(h) /\ UNCHANGED kvars
                                                        ELSE Ev.err \in {InProgress, WouldBlock} /\ (LIFE => Ev.npoll = 0)
                                   /\ UNCHANGED sk
                           /\ UNCHANGED <<queue, sent, rcvd, dg>>
+(* connect on a socket that is connected already: whatever the repeated call returns (the OS may accept it once more or refuse   *)
+(* it as already connected / not supported), the association the OS holds stays, and so does everything the getters report.      *)
+RetReconnect(h) == IF sk[h].closed THEN ClosedRule(h) /\ UNCHANGED kvars
+                   ELSE sk[h].conn /\ Ev.osconn = 1 /\ (Ev.ok = 0 => Ev.err # 0) /\ UNCHANGED kvars
 RetConnectDead(h) == IF sk[h].closed THEN ClosedRule(h) /\ UNCHANGED kvars
                      ELSE /\ Ev.ok = 0 /\ (IF sk[h].blocking THEN Ev.err = Refused ELSE Ev.err \in {InProgress, WouldBlock, Refused})
                           /\ UNCHANGED kvars
@@ -127,7 +131,7 @@ TrRet == /\ IsEvent("sret") /\ Consume
          /\ LET h == Ev.h IN
             /\ pend[h].op = Ev.op
             /\ CASE Ev.op = "new" -> RetNew(h) [] Ev.op = "bind" -> RetBind(h) [] Ev.op = "listen" -> RetListen(h)
-                 [] Ev.op = "connect" -> RetConnect(h) [] Ev.op = "connectdead" -> RetConnectDead(h) [] Ev.op = "connectfull" -> RetConnectFull(h) [] Ev.op = "accept" -> RetAccept(h)
+                 [] Ev.op = "connect" -> RetConnect(h) [] Ev.op = "reconnect" -> RetReconnect(h) [] Ev.op = "connectdead" -> RetConnectDead(h) [] Ev.op = "connectfull" -> RetConnectFull(h) [] Ev.op = "accept" -> RetAccept(h)
                  [] Ev.op = "send" -> RetSend(h) [] Ev.op = "recv" -> RetRecv(h) [] Ev.op = "sendto" -> RetSendTo(h)
                  [] Ev.op = "recvfrom" -> RetRecvFrom(h) [] Ev.op = "set" -> RetSet(h) [] Ev.op = "shutdown" -> RetShutdown(h)
                  [] Ev.op = "close" -> RetClose(h) [] Ev.op = "free" -> RetFree(h) [] Ev.op = "getters" -> UNCHANGED kvars
